@@ -1,5 +1,6 @@
 import WzVerif.Driver.Proto
 import WzVerif.Model.Paths
+import WzVerif.Model.StaticFiles
 namespace Wz.Driver.C14
 open Wz Wz.Proto Wz.Paths
 
@@ -16,6 +17,19 @@ def handle : Handler
     match unhexStr d, ps.mapM unhexStr with
     | some d, some ps => some (outOpt hexStr (safeJoin d ps))
     | _, _ => some badArgs
+  -- sfd <cwd> <directory> <path> <existing file>...   (files: absolute, normalised)
+  | "sfd", cwd :: d :: path :: files =>
+    match unhexStr cwd, unhexStr d, unhexStr path, files.mapM unhexStr with
+    | some cwd, some d, some path, some files =>
+      some (outOpt hexStr (sendFromDirectory (fun p => files.contains (normpath (join cwd [p]))) d path))
+    | _, _, _, _ => some badArgs
+  -- sdm <cwd> <path> <search_path> <directory> <existing file>...   (one directory export)
+  | "sdm", cwd :: path :: search :: d :: files =>
+    match unhexStr cwd, unhexStr path, unhexStr search, unhexStr d, files.mapM unhexStr with
+    | some cwd, some path, some search, some d, some files =>
+      some (outOpt hexStr
+        (sharedData (fun p => files.contains (normpath (join cwd [p]))) [(search, d)] path))
+    | _, _, _, _, _ => some badArgs
   | "secure", [s] =>
     match unhexStr s with
     | some s => some (hexStr (secureAscii s))
